@@ -3,6 +3,7 @@ CONSTANTS
   HeomResets = FALSE
   FreeModeLocal = TRUE
   RestoreOnError = TRUE
+  SplitCopies = TRUE
   NefRecomputes = TRUE
   NrefPersists = FALSE
 SPECIFICATION Spec
